@@ -36,14 +36,16 @@ structure Hist (tr : List (Ev κ)) (o : OState κ) : Prop where
   start  : ∀ (c : Nat) (ocl : OCaller κ), o.callers[c]? = some ocl → ∃ b, Ev.start c b ocl.entries ∈ tr
   credit : ∀ k, prepCount k tr + o.credit k = rmCount k tr + 1
   canc   : ∀ c, o.cancelled c = true → Ev.cancel c ∈ tr
+  await  : ∀ (c : Nat) (ocl : OCaller κ) (a : XAns), o.callers[c]? = some ocl → ocl.pc = .awaiting a → ∃ ids, Ev.exec c ids a ∈ tr
 
-theorem hist_init : Hist ([] : List (Ev κ)) (Obs.init : OState κ) := by
-  refine ⟨fun f => rfl, ?_, ?_, ?_, ?_, fun k => rfl, ?_⟩
-  · intro c ocl h; simp [Obs.init] at h
-  · intro f fl r h; simp [Obs.init] at h
-  · intro f fl h; simp [Obs.init] at h
-  · intro c ocl h; simp [Obs.init] at h
-  · intro c h; simp [Obs.init] at h
+theorem hist_init (b : Bool) : Hist ([] : List (Ev κ)) (Obs.initB b : OState κ) := by
+  refine ⟨fun f => rfl, ?_, ?_, ?_, ?_, fun k => rfl, ?_, ?_⟩
+  · intro c ocl h; simp [Obs.initB] at h
+  · intro f fl r h; simp [Obs.initB] at h
+  · intro f fl h; simp [Obs.initB] at h
+  · intro c ocl h; simp [Obs.initB] at h
+  · intro c h; simp [Obs.initB] at h
+  · intro c ocl a h; simp [Obs.initB] at h
 
 theorem mem_snoc_of_mem {α : Type} {l : List α} {a b : α} (h : a ∈ l) : a ∈ l ++ [b] :=
   List.mem_append_left _ h
@@ -73,10 +75,18 @@ theorem getElem?_set_cases {α : Type} (l : List α) (i j : Nat) (a y : α) (h :
 /-- changing only the pc of one caller -/
 theorem hist_setPc {tr : List (Ev κ)} {o : OState κ} (e : Ev κ) (c : Nat) (cl : OCaller κ) (pc : OPC) (hH : Hist tr o)
     (hc : o.callers[c]? = some cl) (hsc : scanStep (scan tr) e = scan tr)
-    (hp : ∀ k, prepCount k (tr ++ [e]) = prepCount k tr) (hr : ∀ k, rmCount k (tr ++ [e]) = rmCount k tr) :
+    (hp : ∀ k, prepCount k (tr ++ [e]) = prepCount k tr) (hr : ∀ k, rmCount k (tr ++ [e]) = rmCount k tr)
+    (hpc : ∀ a, pc ≠ .awaiting a) :
     Hist (tr ++ [e]) (setPc o c cl pc) := by
   have hs : scan (tr ++ [e]) = scan tr := by rw [scan_snoc, hsc]
-  refine ⟨?_, ?_, ?_, ?_, ?_, ?_, fun c' h => mem_snoc_of_mem (hH.canc c' h)⟩
+  refine ⟨?_, ?_, ?_, ?_, ?_, ?_, fun c' h => mem_snoc_of_mem (hH.canc c' h), ?_⟩
+  rotate_left 6
+  · intro c' ocl a h hpa
+    unfold setPc at h
+    rcases getElem?_set_cases _ _ _ _ _ h with ⟨h1, h2⟩ | ⟨_, h2⟩
+    · subst h2; exact absurd hpa (hpc a)
+    · obtain ⟨ids, hi⟩ := hH.await c' ocl a h2 hpa
+      exact ⟨ids, mem_snoc_of_mem hi⟩
   · intro f; rw [hs]; exact hH.rem f
   · intro c' ocl h
     rw [hs]
@@ -99,13 +109,28 @@ theorem hist_setPc {tr : List (Ev κ)} {o : OState κ} (e : Ev κ) (c : Nat) (cl
 theorem hist_step {tr : List (Ev κ)} {o o' : OState κ} {e : Ev κ} (hH : Hist tr o) (h : Obs.step o e = some o') :
     Hist (tr ++ [e]) o' := by
   have hcanc : ∀ c, o.cancelled c = true → Ev.cancel c ∈ tr ++ [e] := fun c h => mem_snoc_of_mem (hH.canc c h)
+  have hawait : ∀ (c : Nat) (ocl : OCaller κ) (a : XAns), o.callers[c]? = some ocl → ocl.pc = .awaiting a →
+      ∃ ids, Ev.exec c ids a ∈ tr ++ [e] := fun c ocl a h1 h2 => by
+    obtain ⟨ids, hi⟩ := hH.await c ocl a h1 h2
+    exact ⟨ids, mem_snoc_of_mem hi⟩
   cases e with
   | start c b es =>
     simp only [Obs.step] at h
     by_cases hc : c = o.callers.length ∧ es ≠ []
     · rw [if_pos hc] at h; injection h with h; subst h
       obtain ⟨hc1, _⟩ := hc
-      refine ⟨?_, ?_, ?_, ?_, ?_, ?_, hcanc⟩
+      refine ⟨?_, ?_, ?_, ?_, ?_, ?_, hcanc, ?_⟩
+      rotate_left 6
+      · intro c' ocl a hx hpa
+        simp only [] at hx
+        by_cases hlt : c' < o.callers.length
+        · rw [List.getElem?_append_left hlt] at hx
+          exact hawait c' ocl a hx hpa
+        · have hge : o.callers.length ≤ c' := Nat.le_of_not_lt hlt
+          rw [List.getElem?_append_right hge] at hx
+          cases hi : c' - o.callers.length with
+          | zero => rw [hi] at hx; simp at hx; subst hx; cases hpa
+          | succ n => rw [hi] at hx; simp at hx
       · intro f; rw [scan_snoc]; exact hH.rem f
       · intro c' ocl hx
         rw [scan_snoc]
@@ -162,7 +187,7 @@ theorem hist_step {tr : List (Ev κ)} {o o' : OState κ} {e : Ev κ} (hH : Hist 
       cases hf : o.flights f with
       | none =>
         simp only [hf] at h; injection h with h; subst h
-        refine ⟨?_, ?_, ?_, ?_, ?_, hcredit, hcanc⟩
+        refine ⟨?_, ?_, ?_, ?_, ?_, hcredit, hcanc, hawait⟩
         · intro g
           rw [scan_snoc]; simp only [scanStep]
           rw [← hH.rem g]
@@ -192,7 +217,7 @@ theorem hist_step {tr : List (Ev κ)} {o o' : OState κ} {e : Ev κ} (hH : Hist 
         simp only [hf] at h
         by_cases hk : fl0.key = k ∧ fl0.ans = none
         · rw [if_pos hk] at h; injection h with h; subst h
-          refine ⟨?_, ?_, ?_, ?_, ?_, hcredit, hcanc⟩
+          refine ⟨?_, ?_, ?_, ?_, ?_, hcredit, hcanc, hawait⟩
           · intro g
             rw [scan_snoc]; simp only [scanStep]
             rw [← hH.rem g]
@@ -223,6 +248,9 @@ theorem hist_step {tr : List (Ev κ)} {o o' : OState κ} {e : Ev κ} (hH : Hist 
     · rw [if_neg hc] at h; cases h
   | rm k f =>
     simp only [Obs.step] at h
+    by_cases hj : o.strict = true ∧ justified o k f = false
+    · rw [if_pos hj] at h; cases h
+    rw [if_neg hj] at h
     have hcredit : ∀ k', prepCount k' (tr ++ [Ev.rm k f]) + (if k' = k then o.credit k + 1 else o.credit k') =
         rmCount k' (tr ++ [Ev.rm k f]) + 1 := by
       intro k'
@@ -235,7 +263,7 @@ theorem hist_step {tr : List (Ev κ)} {o o' : OState κ} {e : Ev κ} (hH : Hist 
     cases hf : o.flights f with
     | none =>
       simp only [hf] at h; injection h with h; subst h
-      refine ⟨?_, ?_, ?_, ?_, ?_, hcredit, hcanc⟩
+      refine ⟨?_, ?_, ?_, ?_, ?_, hcredit, hcanc, hawait⟩
       · intro g
         rw [scan_snoc]; simp only [scanStep]
         rw [← hH.rem g]
@@ -263,7 +291,7 @@ theorem hist_step {tr : List (Ev κ)} {o o' : OState κ} {e : Ev κ} (hH : Hist 
       simp only [hf] at h
       by_cases hk : fl0.key = k ∧ fl0.removed = false
       · rw [if_pos hk] at h; injection h with h; subst h
-        refine ⟨?_, ?_, ?_, ?_, ?_, hcredit, hcanc⟩
+        refine ⟨?_, ?_, ?_, ?_, ?_, hcredit, hcanc, hawait⟩
         · intro g
           rw [scan_snoc]; simp only [scanStep]
           rw [← hH.rem g]
@@ -296,9 +324,18 @@ theorem hist_step {tr : List (Ev κ)} {o o' : OState κ} {e : Ev κ} (hH : Hist 
     | some cl =>
       simp only [hc] at h
       -- both accepting branches replace the record of c by one with the same entries and `banned := removedNow o`
-      have key : ∀ pc, Hist (tr ++ [Ev.exec c ids a]) { o with callers := o.callers.set c { cl with pc := pc, banned := removedNow o } } := by
-        intro pc
-        refine ⟨?_, ?_, ?_, ?_, ?_, ?_, hcanc⟩
+      have key : ∀ pc, (∀ a', pc = .awaiting a' → a' = a) →
+          Hist (tr ++ [Ev.exec c ids a]) { o with callers := o.callers.set c { cl with pc := pc, banned := removedNow o } } := by
+        intro pc hpca
+        refine ⟨?_, ?_, ?_, ?_, ?_, ?_, hcanc, ?_⟩
+        rotate_left 6
+        · intro c' ocl a' hx hpa
+          simp only [] at hx
+          rcases getElem?_set_cases _ _ _ _ _ hx with ⟨h1, h2⟩ | ⟨_, h2⟩
+          · subst h1; subst h2
+            have := hpca a' hpa; subst this
+            exact ⟨ids, by simp⟩
+          · exact hawait c' ocl a' h2 hpa
         · intro f; rw [scan_snoc]; exact hH.rem f
         · intro c' ocl hx
           rw [scan_snoc]; simp only [scanStep]
@@ -323,11 +360,11 @@ theorem hist_step {tr : List (Ev κ)} {o o' : OState κ} {e : Ev κ} (hH : Hist 
         · intro k; rw [prepCount_snoc, rmCount_snoc]; exact hH.credit k
       by_cases hk : cl.pc.live = true ∧ okEntries o cl.banned cl.entries ids = true
       · rw [if_pos hk] at h; injection h with h; subst h
-        exact key _
+        exact key _ (fun a' h' => by injection h' with h'; exact h'.symm)
       · rw [if_neg hk] at h
         by_cases hk2 : cl.pc = .abandoned true ∧ okEntries o cl.banned cl.entries ids = true
         · rw [if_pos hk2] at h; injection h with h; subst h
-          exact key _
+          exact key _ (fun a' h' => by cases h')
         · rw [if_neg hk2] at h; cases h
   | ret c out =>
     simp only [Obs.step] at h
@@ -335,18 +372,18 @@ theorem hist_step {tr : List (Ev κ)} {o o' : OState κ} {e : Ev κ} (hH : Hist 
     | none => simp [hc] at h
     | some cl =>
       simp only [hc] at h
-      have key : ∀ pc, Hist (tr ++ [Ev.ret c out]) (setPc o c cl pc) := fun pc =>
-        hist_setPc _ c cl pc hH hc rfl (fun k => by rw [prepCount_snoc]; rfl) (fun k => by rw [rmCount_snoc]; rfl)
+      have key : ∀ pc, (∀ a, pc ≠ .awaiting a) → Hist (tr ++ [Ev.ret c out]) (setPc o c cl pc) := fun pc hpc =>
+        hist_setPc _ c cl pc hH hc rfl (fun k => by rw [prepCount_snoc]; rfl) (fun k => by rw [rmCount_snoc]; rfl) hpc
       cases out with
       | ok =>
         simp only [] at h
         by_cases hp : cl.pc = .awaiting .ok
-        · rw [if_pos hp] at h; injection h with h; subst h; exact key _
+        · rw [if_pos hp] at h; injection h with h; subst h; exact key _ (fun a h' => by cases h')
         · rw [if_neg hp] at h; cases h
       | execErr =>
         simp only [] at h
         by_cases hp : cl.pc = .awaiting .err
-        · rw [if_pos hp] at h; injection h with h; subst h; exact key _
+        · rw [if_pos hp] at h; injection h with h; subst h; exact key _ (fun a h' => by cases h')
         · rw [if_neg hp] at h; cases h
       | prepErr f =>
         simp only [] at h
@@ -357,18 +394,18 @@ theorem hist_step {tr : List (Ev κ)} {o o' : OState κ} {e : Ev κ} (hH : Hist 
           | some fl =>
             simp only [hf] at h
             by_cases hq : hasKey cl.entries fl.key = true ∧ fl.ans = some none ∧ fl.removed = true
-            · rw [if_pos hq] at h; injection h with h; subst h; exact key _
+            · rw [if_pos hq] at h; injection h with h; subst h; exact key _ (fun a h' => by cases h')
             · rw [if_neg hq] at h; cases h
         · rw [if_neg hp] at h; cases h
       | countErr =>
         simp only [] at h
         by_cases hp : cl.pc.live = true ∧ countMismatch o cl = true
-        · rw [if_pos hp] at h; injection h with h; subst h; exact key _
+        · rw [if_pos hp] at h; injection h with h; subst h; exact key _ (fun a h' => by cases h')
         · rw [if_neg hp] at h; cases h
       | ctxErr =>
         simp only [] at h
         by_cases hp : o.cancelled c = true ∧ cl.pc.running = true
-        · rw [if_pos hp] at h; injection h with h; subst h; exact key _
+        · rw [if_pos hp] at h; injection h with h; subst h; exact key _ (fun a h' => by cases h')
         · rw [if_neg hp] at h; cases h
   | crash => simp [Obs.step] at h
   | hang c => simp [Obs.step] at h
@@ -376,7 +413,7 @@ theorem hist_step {tr : List (Ev κ)} {o o' : OState κ} {e : Ev κ} (hH : Hist 
     simp only [Obs.step] at h
     by_cases hc : c < o.callers.length
     · rw [if_pos hc] at h; injection h with h; subst h
-      refine ⟨?_, ?_, ?_, ?_, ?_, ?_, ?_⟩
+      refine ⟨?_, ?_, ?_, ?_, ?_, ?_, ?_, hawait⟩
       · intro f; rw [scan_snoc]; exact hH.rem f
       · intro c' ocl hx; rw [scan_snoc]; exact hH.ban c' ocl hx
       · intro f fl r h1 h2; exact mem_snoc_of_mem (hH.prep f fl r h1 h2)
@@ -528,6 +565,84 @@ theorem removedBefore_of_rm_before_start (p1 p2 : List (Ev κ)) (c f : Nat) (k :
   · rw [scan_snoc]; exact scanStep_rem _ _ _ h1
   · rw [scan_snoc]; simp [scanStep, h1]
 
+/-! ### the specification never changes its mode -/
+
+theorem obs_step_strict {o o' : OState κ} {e : Ev κ} (h : Obs.step o e = some o') : o'.strict = o.strict := by
+  cases e with
+  | start c b es =>
+    simp only [Obs.step] at h
+    split at h
+    · injection h with h; subst h; rfl
+    · cases h
+  | prep f k r =>
+    simp only [Obs.step] at h
+    split at h
+    · split at h
+      · injection h with h; subst h; rfl
+      · split at h
+        · injection h with h; subst h; rfl
+        · cases h
+    · cases h
+  | rm k f =>
+    simp only [Obs.step] at h
+    split at h
+    · cases h
+    · split at h
+      · injection h with h; subst h; rfl
+      · split at h
+        · injection h with h; subst h; rfl
+        · cases h
+  | exec c ids a =>
+    simp only [Obs.step] at h
+    split at h
+    · cases h
+    · split at h
+      · injection h with h; subst h; rfl
+      · split at h
+        · injection h with h; subst h; rfl
+        · cases h
+  | ret c out =>
+    simp only [Obs.step] at h
+    split at h
+    · cases h
+    · cases out <;> simp only [] at h
+      · split at h
+        · injection h with h; subst h; rfl
+        · cases h
+      · split at h
+        · injection h with h; subst h; rfl
+        · cases h
+      · split at h
+        · split at h
+          · split at h
+            · injection h with h; subst h; rfl
+            · cases h
+          · cases h
+        · cases h
+      · split at h
+        · injection h with h; subst h; rfl
+        · cases h
+      · split at h
+        · injection h with h; subst h; rfl
+        · cases h
+  | crash => simp [Obs.step] at h
+  | hang _ => simp [Obs.step] at h
+  | cancel c =>
+    simp only [Obs.step] at h
+    split at h
+    · injection h with h; subst h; rfl
+    · cases h
+
+theorem obs_run_strict : ∀ (evs : List (Ev κ)) (o o' : OState κ), Obs.run o evs = some o' → o'.strict = o.strict
+  | [], o, o', h => by simp only [Obs.run] at h; injection h with h; subst h; rfl
+  | e :: evs, o, o', h => by
+    simp only [Obs.run] at h
+    cases hs : Obs.step o e with
+    | none => simp [hs] at h
+    | some o1 =>
+      simp only [hs] at h
+      rw [obs_run_strict evs o1 o' h, obs_step_strict hs]
+
 /-! ### a call that returned is finished -/
 
 /-- an event that is neither a frame nor a return of call c leaves c's record alone -/
@@ -556,6 +671,9 @@ theorem step_keeps_caller {o o1 : OState κ} {x : Ev κ} {c : Nat} {cl : OCaller
     · rw [if_neg hh] at hs; cases hs
   | rm k f =>
     simp only [Obs.step] at hs
+    by_cases hj : o.strict = true ∧ justified o k f = false
+    · rw [if_pos hj] at hs; cases hs
+    rw [if_neg hj] at hs
     cases hf : o.flights f with
     | none => simp only [hf] at hs; injection hs with hs; subst hs; exact hc
     | some fl0 =>
